@@ -103,11 +103,31 @@ pub fn processor(c: &Case) -> Processor {
 }
 
 fn ttl_secs(c: &Case) -> u64 {
-    match c.ttl % 3 {
+    match c.ttl % 4 {
         0 => 60,
         1 => 86_400,
-        _ => 400 * 86_400,
+        2 => 400 * 86_400,
+        // "never": beyond what a cookie's Max-Age can express (it has to be clamped, not wrapped)
+        _ => u64::MAX,
     }
+}
+
+fn huge_ttl(c: &Case) -> bool {
+    c.ttl % 4 == 3
+}
+
+/// With a TTL beyond any clock the bundled stores cannot create a record (deadline arithmetic): such cases
+/// stay on the client side (no server record is ever created: `SkipIfEmpty`, client-side operations only).
+fn normalise(c: &Case) -> Case {
+    let mut c = c.clone();
+    if huge_ttl(&c) {
+        c.cfg.never_skip = false;
+        for r in c.reqs.iter_mut() {
+            r.ops.retain(|op| matches!(op, Op::CGet(_) | Op::CInsert(..) | Op::CRemove(_) | Op::CClear | Op::CIsEmpty));
+            r.probe_start = false;
+        }
+    }
+    c
 }
 
 /// Independent evaluation of the crypto rules for the session cookie name.
@@ -150,6 +170,7 @@ impl WireAttrs {
 }
 
 pub fn oracle(c: &Case) -> CaseResult {
+    let c = &normalise(c);
     let r = crate::util::catch(|| RT.with(|rt| rt.block_on(run(c))));
     match r {
         Ok(r) => r,
@@ -296,7 +317,8 @@ async fn run(c: &Case) -> CaseResult {
                             ),
                         ));
                     }
-                    let want_age = if c.cfg.persistent { Some(ttl_secs(c) as i64) } else { None };
+                    // (a TTL beyond the range of Max-Age is clamped to something very long, never wrapped to zero / negative)
+                    let want_age = if !c.cfg.persistent { None } else if huge_ttl(c) { a.max_age_s.filter(|v| *v >= 400 * 86_400) .or(Some(i64::MAX)) } else { Some(ttl_secs(c) as i64) };
                     if a.max_age_s != want_age {
                         return Err(Fail::new(
                             "cookie-attrs:max-age",
@@ -315,7 +337,7 @@ async fn run(c: &Case) -> CaseResult {
                     if !secure_ok
                         || w_http != c.http_only
                         || w_ss != want_ss
-                        || w_age != want_age
+                        || (w_age != want_age && !(huge_ttl(c) && c.cfg.persistent && w_age.is_some_and(|v| v >= 400 * 86_400)))
                         || w_dom != want_domain
                         || w_path != want_path
                     {
@@ -431,7 +453,7 @@ pub fn case_strategy() -> impl Strategy<Value = Case> {
         (
             any::<bool>(),
             any::<bool>(),
-            0u8..3,
+            prop_oneof![12 => 0u8..3, 1 => Just(3u8)],
             crate::c11::cfg_strategy(),
             prop::collection::vec(crate::c11::req_strategy(true), 1..=3),
             prop::collection::vec(0u8..8, 0..3),
